@@ -3,7 +3,7 @@
 import ast
 
 from ..effects import Effects, FuncAnalysis
-from ..index import Index, norm
+from ..index import Index, Vanished, norm
 from ..ordering import Ordering
 
 _CTX = {}
